@@ -143,10 +143,10 @@ Theorem C06_ctor_ddt_gauss_kin : forall (inc nrm : bool) zl zs mu sg j0 j1 v0 v1
     (kin_args (VList [Ctor.num v0; Ctor.num v1]) (VList [Ctor.num j0; Ctor.num j1]) cm cj inc nrm) rg cu o cu []
   /\ field o ["_kinlikelihood"; "_normalized"] = Some (VBool nrm)
   /\ field o ["_kinlikelihood"; "_sigma_sys_error_include"] = Some (VBool inc)
-  /\ field o ["_kinlikelihood"; "_sigma_v_measured"] = Some (VList [Ctor.num v0; Ctor.num v1])
-  /\ field o ["_kinlikelihood"; "_j_model"] = Some (VList [Ctor.num j0; Ctor.num j1])
-  /\ field o ["_kinlikelihood"; "_error_cov_measurement"] = Some cm
-  /\ field o ["_kinlikelihood"; "_error_cov_j_sqrt"] = Some cj
+  /\ field o ["_kinlikelihood"; "_sigma_v_measured"] = Some (VArr [Ctor.num v0; Ctor.num v1])
+  /\ field o ["_kinlikelihood"; "_j_model"] = Some (VArr [Ctor.num j0; Ctor.num j1])
+  /\ field o ["_kinlikelihood"; "_error_cov_measurement"] = Some (arr cm)
+  /\ field o ["_kinlikelihood"; "_error_cov_j_sqrt"] = Some (arr cj)
   /\ field o ["_ddt_gauss_likelihood"; "_ddt_mean"] = Some (Ctor.num mu)
   /\ field o ["_ddt_gauss_likelihood"; "_ddt_sigma"] = Some (Ctor.num sg)
   /\ field o ["num_data"] = Some (VInt (1 + 2)).
@@ -157,8 +157,8 @@ Theorem C06_ctor_ddt_hist_kin : forall (inc nrm : bool) zl zs (samples weights :
     (kin_args (VList [Ctor.num v0; Ctor.num v1]) (VList [Ctor.num j0; Ctor.num j1]) cm cj inc nrm ++ [("ddt_weights", weights)]) rg cu o cu []
   /\ field o ["_kinlikelihood"; "_normalized"] = Some (VBool nrm)
   /\ field o ["_kinlikelihood"; "_sigma_sys_error_include"] = Some (VBool inc)
-  /\ field o ["_kinlikelihood"; "_sigma_v_measured"] = Some (VList [Ctor.num v0; Ctor.num v1])
-  /\ field o ["_kinlikelihood"; "_j_model"] = Some (VList [Ctor.num j0; Ctor.num j1])
+  /\ field o ["_kinlikelihood"; "_sigma_v_measured"] = Some (VArr [Ctor.num v0; Ctor.num v1])
+  /\ field o ["_kinlikelihood"; "_j_model"] = Some (VArr [Ctor.num j0; Ctor.num j1])
   /\ field o ["_tdLikelihood"; "normalized"] = Some (VBool nrm)
   /\ field o ["_tdLikelihood"; "ddt_weights"] = Some weights
   /\ field o ["_tdLikelihood"; "args"] = Some (VList [Ctor.num zl; Ctor.num zs; samples]).
